@@ -110,7 +110,8 @@ func (t *TestRenumberer) processYaml(ruleId string, contents []byte) ([]byte, er
 	scanner.Split(bufio.ScanLines)
 	output := new(bytes.Buffer)
 	writer := bufio.NewWriter(output)
-	index := 0
+	// IDs and legacy titles are numbered independently: the n-th ID is n and the
+	// n-th title is <rule ID>-n, also when only some of the tests carry both fields.
 	idCount := 0
 	titleCount := 0
 	for scanner.Scan() {
@@ -118,19 +119,13 @@ func (t *TestRenumberer) processYaml(ruleId string, contents []byte) ([]byte, er
 		matches := regex.TestIdRegex.FindStringSubmatch(line)
 		if matches != nil {
 			idCount++
-			if idCount > index {
-				index++
-			}
-			line = fmt.Sprint(matches[1], " ", index)
+			line = fmt.Sprint(matches[1], " ", idCount)
 		}
 		// legacy support
 		matches = regex.TestTitleRegex.FindStringSubmatch(line)
 		if matches != nil {
 			titleCount++
-			if titleCount > index {
-				index++
-			}
-			line = fmt.Sprint(matches[1], " ", ruleId, "-", index)
+			line = fmt.Sprint(matches[1], " ", ruleId, "-", titleCount)
 		}
 
 		if _, err := writer.WriteString(line); err != nil {
